@@ -97,6 +97,10 @@ pub struct ScenarioA {
     /// messages the simulated network dropped (never delivered)
     #[serde(default)]
     pub n_dropped: u64,
+    /// microseconds per time unit of every `t` in this scenario (None = 1000: milliseconds);
+    /// smaller units put several distinct exchange timestamps inside one millisecond
+    #[serde(default)]
+    pub tick_us: Option<i64>,
 }
 
 pub fn topo_instruments(topo: u8) -> IndexedInstruments {
@@ -473,8 +477,9 @@ fn apply(state: &mut St, w: &World, sc: &ScenarioA, op: &OpA) {
                 ex,
                 *inst,
                 *t,
-                Some((dec(*bid), dec(1))),
-                Some((dec(*ask), dec(2))),
+                // a non-positive scripted price means that side of the book is empty
+                (*bid > 0).then(|| (dec(*bid), dec(1))),
+                (*ask > 0).then(|| (dec(*ask), dec(2))),
             );
             state.update_from_market(&ev);
         }
@@ -592,6 +597,7 @@ impl Sim for SimA {
 
     fn execute(&self, sc: &ScenarioA, ctx: &ExecCtx<'_>) -> Outcome {
         let pid = self.pid();
+        let _tick = set_tick_us(sc.tick_us.unwrap_or(1000));
         let w = World::new(sc.topo);
         let mut log = Log::new(ctx.keep_log);
         let mut stats = RunStats::default();
@@ -1022,8 +1028,8 @@ impl Sim for SimA {
                             ms_of(l1.last_update_time) == mx
                                 && d.iter().any(|(t, b, a)| {
                                     *t == mx
-                                        && l1.best_bid.map(|l| l.price) == Some(dec(*b))
-                                        && l1.best_ask.map(|l| l.price) == Some(dec(*a))
+                                        && l1.best_bid.map(|l| l.price) == (*b > 0).then(|| dec(*b))
+                                        && l1.best_ask.map(|l| l.price) == (*a > 0).then(|| dec(*a))
                                 })
                         }
                     };
@@ -1738,8 +1744,9 @@ fn plan_a(prop: PropA, rng: &mut Rng, sub: usize) -> ScenarioA {
                 _ => OpA::L1 {
                     inst: item,
                     t,
-                    bid: a,
-                    ask: b,
+                    // sometimes one side, or both, of the top of book is empty (a legal value)
+                    bid: if rng.chance(1, 8) { 0 } else { a },
+                    ask: if rng.chance(1, 8) { 0 } else { b },
                 },
             };
             seq += 1;
@@ -1763,5 +1770,6 @@ fn plan_a(prop: PropA, rng: &mut Rng, sub: usize) -> ScenarioA {
         init_bal,
         ops,
         n_dropped: dropped as u64,
+        tick_us: *rng.pick(&[None, None, Some(250i64), Some(7), Some(1)]),
     }
 }
